@@ -51,6 +51,18 @@ def rand_defined_payload(rng, identity=None, **kw):
         _IDS = [i for i in refmodel.identities() if refmodel.reachable(i)]
     if identity is None:
         identity = rng.choice(_IDS)
+    if not kw and rng.random() < 0.15:
+        # laid out from the PINNED geometry (vf.stdgeom: the standards' widths and repeat structure, random content)
+        from vf import stdgeom
+
+        if identity in stdgeom.SPEC:
+            try:
+                nbits, val, _ = stdgeom.generate(identity, rng, rng.choice(("small", "one", "small", "random")))
+                pl = stdgeom.to_payload(nbits, val, rng.getrandbits(8))[0]
+                if len(pl) <= 1023:
+                    return pl
+            except RuntimeError:
+                pass
     kw.setdefault("vstrat", rng.choice(("random", "mixed", "ones", "zero", "related")))
     kw.setdefault("cstrat", rng.choice(("small", "small", "one", "random")))
     if "tabs" not in kw and rng.random() < 0.4:
@@ -155,6 +167,24 @@ def ubx(rng, maxlen=300, dense=False) -> bytes:
     else:
         body = bytes(rng.getrandbits(8) for _ in range(ln))
     msg = bytes([rng.getrandbits(8), rng.getrandbits(8)]) + ln.to_bytes(2, "little") + body
+    a = b = 0
+    for x in msg:
+        a = (a + x) & 0xFF
+        b = (b + a) & 0xFF
+    return b"\xb5\x62" + msg + bytes([a, b])
+
+
+def ubx_quote(rng) -> bytes:
+    """UBX frame of 256..900 payload bytes that QUOTES RTCM material (a receiver's pass-through / log message): a
+    complete valid frame, a frame with its checksum overwritten, a bare frame header. All of it is UBX payload."""
+    inner = refcrc.frame(rand_unknown_payload(rng, rng.randint(2, 40)))
+    style = rng.randrange(3)
+    if style == 1:
+        inner = inner[:-3] + bytes(x ^ 0x5A for x in inner[-3:])
+    elif style == 2:
+        inner = inner[:3 + rng.randint(0, 4)]
+    body = rng.randbytes(rng.randint(256, 800)) + inner + rng.randbytes(rng.randint(0, 60))
+    msg = bytes([rng.getrandbits(8), rng.getrandbits(8)]) + len(body).to_bytes(2, "little") + body
     a = b = 0
     for x in msg:
         a = (a + x) & 0xFF
